@@ -51,6 +51,9 @@ def run(ctx):
     rule_recv(ctx, F)
     rule_hint(ctx, F)
     rule_idle(ctx, F)
+    rule_idle_guard(ctx, F)
+    rule_cfgfresh(ctx, F)
+    rule_conncount(ctx, F)
     import c02
     c02.rule_shim(ctx, F)   # the length prefix written on a stream is kept current by StreamTarget (shared with C02)
 
@@ -574,6 +577,37 @@ def rule_hint(ctx, F):
            "advertised 700 octets gets 850", b.where())
 
 
+def rule_idle_guard(ctx, F):
+    """(C16.idle) The guard that holds the idle timeout back lives as long as the request is being processed: the
+    InTransaction value created when a request is handed to the service is moved into the task that is spawned to call
+    the service (a captured variable of that coroutine), not dropped at the end of the statement that spawned it."""
+    R = "C16.idle"
+    bs = [b for p, b in F.bodies.items() if re.search(r"^net::server::connection::Connection::<.*>::process_read_request::\{closure#0\}$", p)]
+    if not ctx.anchor(R, "Connection::process_read_request", len(bs) == 1):
+        return
+    b = bs[0]
+    news = [bb for bb, t in b.calls() if re.search(r"connection::InTransaction::new$", t["fn"] or "")]
+    for bi in b.reachable_blocks():          # ... or its body, if the constructor was inlined
+        for st in b.blocks[bi]["s"]:
+            if st[0] == "=" and st[2][0] == "agg" and st[2][1][0] == "adt" and str(st[2][1][1]).endswith("connection::InTransaction"):
+                news.append(bi)
+    if not ctx.anchor(R, "InTransaction::new in process_read_request", len(news) >= 1, b.where()):
+        return
+    spawned = []
+    for bi in b.reachable_blocks():
+        for st in b.blocks[bi]["s"]:
+            if st[0] == "=" and st[2][0] == "agg" and st[2][1][0] == "coroutine":
+                caps = [b.locals[o[1][0]] if o[0] in ("c", "m") else "" for o in st[2][2]]
+                if any(c.endswith("connection::InTransaction") for c in caps):
+                    spawned.append(bi)
+    for nb in news:
+        ok = any(b.dominates(nb, sb) for sb in spawned)
+        ctx.ob(R, b, "the in-transaction guard travels with the task that calls the service", ok,
+               "process_read_request creates the InTransaction guard but no spawned task takes it along: it is dropped as soon as "
+               "the task has been spawned, the idle timeout sees no request in flight and closes the connection under a service "
+               "call that takes longer than the timeout", b.where(nb))
+
+
 def rule_idle(ctx, F):
     """The idle timeout of a stream connection (RFC 7766 6.2.3) must not close a connection on which a request is still being
     processed: the condition in process_dns_idle_timeout reads a shared flag / counter for that -- which somebody has to
@@ -609,3 +643,56 @@ def rule_idle(ctx, F):
                "process_dns_idle_timeout lets the timeout pass only while `%s` is set, but nothing in net::server::connection ever "
                "writes it: the connection is closed (without flushing) while a request is still being processed -- with "
                "idle_timeout 300 ms a response that takes 800 ms is never sent" % fld, b.where())
+
+
+def rule_cfgfresh(ctx, F):
+    """(C16.size) The size limit a datagram response is held to is the one configured *now*: the value handed to
+    UdpTransportContext::new is read from the server's config inside the per-datagram function (a `load()` of the
+    shared config there), not carried in from a snapshot taken when the receive loop started -- reconfigure() would
+    otherwise never reach a running server."""
+    R = "C16.size"
+    bs = [b for p, b in F.bodies.items() if re.search(r"^net::server::dgram::DgramServer::<.*>::process_received_message$", p)]
+    if not ctx.anchor(R, "DgramServer::process_received_message", len(bs) == 1):
+        return
+    b = bs[0]
+    sites = [(bb, t) for bb, t in b.calls() if re.search(r"UdpTransportContext::new$", t["fn"] or "")]
+    if not ctx.anchor(R, "UdpTransportContext::new in process_received_message", len(sites) >= 1, b.where()):
+        return
+    for bb, t in sites:
+        tm = deep_strip(b.term_of_operand(t["args"][0]))
+        fresh = any(s_[0] == "call" and re.search(r"::load$", s_[1] or "") and "config" in show(s_) for s_ in walk(tm))
+        ctx.ob(R, b, "the response size limit is read from the current configuration", fresh,
+               "process_received_message builds the transport context from %s, not from a load() of the server's configuration at "
+               "that moment: a limit lowered with reconfigure() is not applied to the datagrams that follow" % show(tm)[:100], b.where(bb))
+
+
+def rule_conncount(ctx, F):
+    """(C16.accept) The connection counter that the accept loop compares with max_concurrent_connections is raised by the
+    object that lowers it again: `inc_num_connections` is called only from the type whose Drop calls
+    `dec_num_connections`, in the function that arms that Drop (`active = true`).  Raised anywhere earlier -- when a
+    connection is merely accepted -- set-ups that fail before the object exists are counted for ever and use up the limit."""
+    R = "C16.accept"
+    decs = [p for p, b in F.bodies.items() if re.search(r" as core::ops::Drop>::drop$", p) and "net::server" in p
+            and b.calls_matching(r"dec_num_connections$")]
+    if not ctx.anchor(R, "the Drop impl that lowers the connection count", len(decs) == 1):
+        return
+    owner = re.match(r"^<([\w:]+)", decs[0]).group(1)
+    n = 0
+    for p, b in sorted(F.bodies.items()):
+        if "::test" in p or not b.calls_matching(r"metrics::ServerMetrics::inc_num_connections$|::inc_num_connections$"):
+            continue
+        if p.endswith("::inc_num_connections"):
+            continue
+        n += 1
+        arms = False
+        for bi in b.reachable_blocks():
+            for st in b.blocks[bi]["s"]:
+                if st[0] == "=" and len(st[1]) > 1:
+                    tgt = show(deep_strip(b.term_of_place(st[1])))
+                    if tgt.endswith(".active") and const_value(deep_strip(b.term_of_rvalue(st[2]))) in (1, True):
+                        arms = True
+        ctx.ob(R, b, "the connection count is raised where its decrement is armed", p.startswith(owner + "::") and arms,
+               "%s raises the connection count, but the matching decrement belongs to Drop of %s and is armed elsewhere: a "
+               "connection whose set-up fails in between (a failed TLS handshake) is never counted down, and "
+               "max_concurrent_connections such failures leave the server refusing everyone" % (p.split("net::server::")[-1], owner.split("::")[-1]))
+    ctx.ob(R, "net::server", "a place that raises the connection count", n >= 1, "inc_num_connections is never called", nontrivial=False)
